@@ -26,6 +26,7 @@ ASSUMPTIONS = [
     'direct execution of the same instruction list through the generic algopy API on the unwrapped operands is the reference',
     'values compared with tolerance 1e-13 relative to max(1,|ref|) (the two paths run the same kernels); shapes and UTPM-vs-plain kind exactly',
     'the expected trace (node names per instruction) encodes: each executed operation once, in order, constants as Id nodes',
+    'thorough tier: bucket "atheris" runs the compose property for 180 s under atheris/libFuzzer (Hypothesis fuzz_one_input, algopy instrumented); inconclusive if atheris is unavailable',
 ]
 
 TOL = 1e-13
@@ -288,6 +289,43 @@ SINGLE = ['un', 'kink', 'special', 'unp', 'bin', 'bcast', 'binc', 'pow', 'powreg
 CHEAP_TAIL = ['un', 'bin', 'binc', 'neg', 'get', 'set']
 
 
+def prop_atheris(case, stats):
+    """thorough tier: the compose property under coverage-guided mutation (vlib/checks/_c05_fuzz.py); inconclusive when
+    atheris is unavailable or the time budget ends without a verdict"""
+    import glob, json, os, shutil, subprocess, sys, tempfile
+    from .. import env
+    dirs = [d for d in (os.path.join(env.VERIF, '.deps', 'early'), os.environ.get('VERIF_ATHERIS_DIR', '')) if d and os.path.isdir(d)]
+    probe = subprocess.run([sys.executable, '-B', '-c', 'import sys; sys.path[1:1] = %r; import atheris' % (dirs,)], capture_output=True)
+    if probe.returncode != 0:
+        stats.event('atheris:not-installed')
+        raise Inconclusive('atheris is not installed; stage skipped')
+    art = tempfile.mkdtemp(prefix='c05-atheris-')
+    try:
+        cmd = [sys.executable, '-B', '-m', 'vlib.checks._c05_fuzz', art, '-max_total_time=%d' % case['seconds'], '-seed=%d' % case['seed']]
+        try:
+            r = subprocess.run(cmd, cwd=env.VERIF, env=dict(os.environ, PYTHONHASHSEED='0'), capture_output=True, timeout=case['seconds'] + 600)
+        except subprocess.TimeoutExpired:
+            raise Inconclusive('atheris stage timed out')
+        vio = os.path.join(art, 'violation.json')
+        tail = r.stderr.decode('utf-8', 'replace')
+        if os.path.exists(vio):
+            doc = json.load(open(vio))
+            d = os.path.join(env.OUT, 'replays', PID, 'found')
+            os.makedirs(d, exist_ok=True)
+            path = os.path.join(d, 'compose-atheris-%d.json' % case['seed'])
+            shutil.copy(vio, path)
+            raise Violation('%s (case saved as %s)' % (doc['msg'][:400], path))
+        if r.returncode != 0 and not glob.glob(os.path.join(art, 'crash-*')):
+            raise Inconclusive('atheris driver failed: ' + tail[-300:])
+        if glob.glob(os.path.join(art, 'crash-*')):
+            raise Inconclusive('atheris target crashed without a property violation (harness problem): ' + tail[-300:])
+        import re
+        m = re.search(r'stat::number_of_executed_units:\s*(\d+)', tail)
+        stats.event('atheris:executed-units=%s' % (m.group(1) if m else '?'))
+    finally:
+        shutil.rmtree(art, ignore_errors=True)
+
+
 def buckets(tier):
     bl = []
     for fam in SINGLE:
@@ -297,4 +335,9 @@ def buckets(tier):
     bl.append(Bucket('compose', (lambda: replay_cases(tier, max_len=12, min_len=3)), prop_replay,
                      {'quick': 40, 'thorough': 1500}, nontrivial=_nontrivial, classes=_classes,
                      shards={'quick': 12, 'thorough': 16}, weight=4.0))
+    if tier == 'thorough':
+        import os
+        bl.append(Bucket('atheris', (lambda: st.just({'stage': 'atheris', 'seconds': 180, 'seed': int(os.environ.get('VERIF_SEED', '1'))})),
+                         prop_atheris, {'quick': 1, 'thorough': 1}, nontrivial=(lambda case: False), classes=(lambda case: ['stage=atheris']),
+                         weight=1e6))
     return bl
